@@ -132,6 +132,16 @@ pub fn deep_messages(seed: u64) -> Vec<AMsg> {
             out.push(AMsg { ver: 0x0200, code: 2, id: len as u32, groups: vec![AGroup { tag: 1, attrs }] });
         }
     }
+    // wide values / groups (TLC's sequence and record operations are quadratic: kept in the hundreds; counts
+    // beyond 65535 are driven by the digest event `rtbig`)
+    {
+        let vs: Vec<AV> = (0..1500i32).map(|i| if i % 100 == 99 { AV::Enum(i) } else { AV::Int(i) }).collect();
+        out.push(AMsg { ver: 0x0101, code: 0, id: 1500, groups: vec![AGroup { tag: 1, attrs: vec![("big-set".into(), AV::Set(vs))] }] });
+        let ms: Vec<(String, AV)> = (0..700).map(|i| (format!("member-{:05}", (i * 7919) % 700), AV::Int(i))).collect();
+        out.push(AMsg { ver: 0x0101, code: 0, id: 700, groups: vec![AGroup { tag: 1, attrs: vec![] }, AGroup { tag: 4, attrs: vec![("big-coll".into(), AV::Coll(ms))] }] });
+        let attrs: Vec<(String, AV)> = (0..600).map(|i| (format!("attr-{}", i), if i % 2 == 0 { AV::Int(i) } else { AV::Str("Keyword", format!("v{}", i)) })).collect();
+        out.push(AMsg { ver: 0x0101, code: 0, id: 600, groups: vec![AGroup { tag: 1, attrs: vec![("attributes-charset".into(), AV::Str("Charset", "utf-8".into()))] }, AGroup { tag: 5, attrs }] });
+    }
     for total in [65535usize, 65534, 300] {
         // with-language values whose outer length hits the limit: language + text + 4 = total
         for ll in [0usize, 2, 255, 256] {
@@ -370,6 +380,69 @@ pub fn run(a: &Args) {
                 }
                 _ => {}
             }
+            evals += 1;
+        }
+    }
+    if a.get("deep").is_some() && (prop == "C01" || prop == "C04") {
+        // counts beyond a 16-bit counter: 70 000 values in one set, 66 000 attributes in one group, 66 000 members.
+        // Too large for TLC's sequence operators: the harness reports count and digest of what was sent and of what
+        // came back (the same digest function on both sides); Trace_Wire compares them.
+        for (bi, kind) in ["set", "attrs", "members"].iter().enumerate() {
+            let n = if *kind == "set" { 70_000usize } else { 66_000 };
+            let ints: Vec<i32> = (0..n as i32).map(|i| i.wrapping_mul(2654435) ^ (i >> 3)).collect();
+            let msg = match *kind {
+                "set" => AMsg { ver: 0x0101, code: 0, id: 1, groups: vec![AGroup { tag: 1, attrs: vec![("big".into(), AV::Set(ints.iter().map(|i| AV::Int(*i)).collect()))] }] },
+                "attrs" => AMsg { ver: 0x0101, code: 0, id: 1, groups: vec![AGroup { tag: 1, attrs: ints.iter().enumerate().map(|(k, i)| (format!("a{}", k), AV::Int(*i))).collect() }] },
+                _ => AMsg { ver: 0x0101, code: 0, id: 1, groups: vec![AGroup { tag: 1, attrs: vec![("big".into(), AV::Coll(ints.iter().enumerate().map(|(k, i)| (format!("m{:06}", k), AV::Int(*i))).collect()))] }] },
+            };
+            let digest = |vals: &[(String, i32)]| -> J {
+                let mut v = vals.to_vec();
+                v.sort();
+                let mut h = vec![];
+                for (k, i) in &v {
+                    h.extend_from_slice(k.as_bytes());
+                    h.extend_from_slice(&i.to_be_bytes());
+                }
+                json!({"n": v.len(), "h": format!("{:016x}", fnv64(&h))})
+            };
+            let sent: Vec<(String, i32)> = match *kind {
+                "set" => ints.iter().enumerate().map(|(k, i)| (format!("{:08}", k), *i)).collect(),
+                "attrs" => ints.iter().enumerate().map(|(k, i)| (format!("a{}", k), *i)).collect(),
+                _ => ints.iter().enumerate().map(|(k, i)| (format!("m{:06}", k), *i)).collect(),
+            };
+            let bytes = if prop == "C04" { amsg_bytes(&msg) } else { msg.to_ipp().to_bytes().to_vec() };
+            let got = catch_unwind(AssertUnwindSafe(|| match IppParser::new(IppReader::new(Cursor::new(bytes.clone()))).parse() {
+                Ok(r) => {
+                    let mut out: Vec<(String, i32)> = vec![];
+                    for g in r.attributes().groups() {
+                        for (name, a) in g.attributes() {
+                            match a.value() {
+                                IppValue::Array(vs) => {
+                                    for (k, v) in vs.iter().enumerate() {
+                                        if let IppValue::Integer(i) = v {
+                                            out.push((format!("{:08}", k), *i));
+                                        }
+                                    }
+                                }
+                                IppValue::Collection(m) => {
+                                    for (mk, v) in m {
+                                        if let IppValue::Integer(i) = v {
+                                            out.push((mk.clone(), *i));
+                                        }
+                                    }
+                                }
+                                IppValue::Integer(i) => out.push((name.clone(), *i)),
+                                _ => {}
+                            }
+                        }
+                    }
+                    json!({"ok": true, "d": digest(&out), "groups": r.attributes().groups().len()})
+                }
+                Err(e) => err_json(&e),
+            }))
+            .unwrap_or_else(|p| json!({"ok": false, "err": "PANIC", "what": panic_text(p)}));
+            let cid = format!("{}-big-{}", prop, bi);
+            sink.emit(&json!({"ev": "rtbig", "case": cid, "kind": kind, "sent": digest(&sent), "out": got}), &json!({"case": cid, "kind": kind, "n": n}));
             evals += 1;
         }
     }
